@@ -521,6 +521,10 @@ def run_other_ops(shard):
     rows = ['CC(=O)[O-].[Na+]', 'C[NH3+].[Cl-]', 'OC(=O)CC[NH3+].[Cl-]', 'c1ccccc1O', 'Oc1ccccn1', 'c1cc[nH]c1', 'C[C@H](N)C(=O)O', 'C/C=C/C', '[13CH3]C([2H])O', 'Cl[Pt](Cl)(N)N', 'C~[Fe]~C', 'N~[Cu]~N.O',
             '[Fe](C#O)(C#O)(C#O)(C#O)C#O', 'CC(=O)O[Na]', 'C[Mg]Br', 'O.O.[Cu+2].[O-]S([O-])(=O)=O', 'CC(O)=O.CN', 'c1ccccc1.Cl', 'C1CC1.[Na+].[OH-]', 'OS(=O)(=O)O.NCCN', 'C[C@H]1CC[C@@H](O)CC1',
             'CC=[C@]=CC', '[CH3]', 'C[O]', '[Na+].[Cl-].C1CCOC1', 'O=C(O)C(F)(F)F.CCN(CC)CC', '[Li]CCCC', 'C[Si](C)(C)C.[K+].[F-]']
+    # every acid of the salt-stripping table (ring-bearing ones in both ring spellings) with three bases
+    acids_ = ['Cl', 'Br', 'I', 'O[N+](=O)[O-]', 'ON=O', 'OP(O)(O)=O', 'COP(O)(=O)OC', 'OS(O)(=O)=O', 'CS(O)(=O)=O', 'OS(=O)(=O)C(F)(F)F', 'CC1=CC=C(C=C1)S(O)(=O)=O', 'Cc1ccc(cc1)S(O)(=O)=O',
+              'OC(O)=O', 'CC(O)=O', 'OC(=O)C(F)(F)F', 'OCC(O)=O', 'CC(O)C(O)=O', 'OC(=O)C(O)=O', 'OC(=O)C(Cl)Cl', 'OC(=O)C=CC(O)=O', 'OC(C(O)C(O)=O)C(O)=O', 'O[Cl](=O)(=O)=O']
+    rows += ['%s.%s' % (b_, a_) for a_ in acids_ for b_ in ('CCN', 'c1ccncc1', 'C1CCNCC1')] + ['Cc1ccc(cc1)S(O)(=O)=O.CCN.Cc1ccc(cc1)S(O)(=O)=O', '[Na+].[O-]c1ccccc1', '[K+].[O-]C(=O)c1ccccc1.C1CCOC1']
     rows += inputs.organometallics()[::6] + M.corpus(stride=40 if tier == 'quick' else 8)
     for i, s in enumerate(rows):
         if i % nsh != k:
